@@ -830,6 +830,26 @@ impl<'a> G<'a> {
                 }
             }
         }
+        // `let _ = todo as f(x)` / `panic as f(x)`: the message is an expression like any other - a
+        // function-typed local called in it is still a function-typed local (highlighting, navigation)
+        if self.r.chance(1, 4) {
+            let mut cands: Vec<(String, Vec<Ty>)> = Vec::new();
+            for (n, t) in self.visible_vars() {
+                if let Ty::Fn(ps, r) = &t {
+                    if **r == Ty::Str {
+                        cands.push((n.clone(), ps.clone()));
+                    }
+                }
+            }
+            if !cands.is_empty() {
+                let (n, ps) = cands[self.r.below(cands.len())].clone();
+                let args = ps.iter().map(|p| Arg { label: None, value: self.gen_atom(p) }).collect();
+                let call = Expr::Call(Box::new(self.var_expr(&n)), args);
+                self.feat("function-typed-local-called-in-a-todo-or-panic-message");
+                let value = if self.r.chance(1, 2) { Expr::Todo(Some(Box::new(call))) } else { Expr::Panic(Some(Box::new(call))) };
+                out.push(Stmt::Let { assert: false, pat: Pattern::Discard("_".into()), ann: None, value });
+            }
+        }
         out.push(Stmt::Expr(self.gen_expr(ty, depth.saturating_sub(1))));
         self.env.pop();
         out
